@@ -13,7 +13,7 @@ from hypothesis import strategies as st
 from hv.gen import vocab
 
 STREAM_IDS = [7, 13, 20, 24]
-EPOCHS = [0, 1000, 10**9, 1_700_000_000_000_000]
+EPOCHS = [0, 1000, 10**9, 1_700_000_000_000_000, 100, 32_700, 2**31 - 40]
 
 
 def host_first_event(rank: int, ts: int, dur: int) -> Dict[str, Any]:
